@@ -199,10 +199,24 @@ def ks_layouts():
     return [(t, b) for b in range(1, 32) for t in range(1, 32) if t * b <= 31]
 
 
+def tnz_inc(T):
+    return ('#define TNZ_PREFIX(A, j) (%s)\n' % ' + '.join('((%d < (j) && DIG(A, %d) != 0) ? 1 : 0)' % (q, q) for q in range(T))
+            + '#define TFOR(M) %s\n' % ' '.join('M(%d)' % q for q in range(T)))
+
+
+def translate_unbounded_groups(tag, tier):
+    lay = [(8, 2), (2, 3), (3, 5), (4, 4), (2, 1)] if tier == 'quick' else [(t, b) for (t, b) in ks_layouts() if 2 <= t <= 15 and b <= 8]
+    return [Group('%s.translate.unbounded.t=%d.basebit=%d' % (tag, T, B), 'c08_keyswitch.c', 'h_translate_unbounded',
+                  extract=[(KS, 'lweKeySwitchTranslate_fromArray')], loops=True, defines={'H_TRANSLATE_U': None, 'VERIF_T': T, 'VERIF_BASEBIT': B},
+                  gen={'tnz.inc': tnz_inc(T)}, unwind=T + 2, timeout=1200, instance={'t': T, 'basebit': B, 'n': 'symbolic'}, replay=('keyswitch', T, min(B, 4), 3))
+            for (T, B) in lay]
+
+
 def c08_groups(tier, tag='C08'):
     gs = [Group(tag + '.lemma.digits', 'c08_keyswitch.c', 'h_lemma_digits', defines={'H_LEMMA': None}, unwind=33, timeout=1200,
                 note='all 2^32 mask values, all valid (t,basebit) symbolic; loop bounded by the word width (complete)'),
           Group(tag + '.lweKeySwitch', 'c08_keyswitch.c', 'h_lweKeySwitch', defines={'H_KEYSWITCH': None}, extract=[(KS, 'lweKeySwitch')])]
+    gs += translate_unbounded_groups(tag, tier)
     if tier == 'quick':
         lay = [(8, 2), (2, 3), (1, 1), (3, 5), (15, 2), (31, 1), (1, 31)]
         ns = [1, 2, 3]
@@ -459,7 +473,7 @@ def c15_groups(tier):
 def c16_groups(tier):
     gs = alloc_groups('C16', tier)
     gs += boot_groups('C16')
-    gs += [g for g in c08_groups(tier, 'C16') if 'translate' in g.name]
+    gs += [g for g in c08_groups(tier, 'C16') if 'translate' in g.name]      # bounded (real table) and unbounded-in-n (uniform table) variants
     dz = [g for g in c12_groups(tier, 'C16') if 'lemma' not in g.name]
     if tier == 'quick':
         dz = [g for g in dz if 'TLweDecompH' not in g.name or 'TLweDecompH.l=2.Bgbit=10.k=1' in g.name]
@@ -619,7 +633,7 @@ PROPS = {
                        'centred truncation error <= 2^-(t*basebit+1), carries and wrap; row messages sum to s_i times the rounded value; lweKeySwitch wiring. '
                        'That the real translate loop subtracts exactly the rows those digits select, through the real 3-level table, is a bounded stand-in in n.',
         'assumptions': STD_ASSUME + [
-            'lweKeySwitchTranslate_fromArray loop structure and 3-level table memory safety: bounded stand-in (n in {1,2,3}(,5), table built by the real constructor, every a_i fully symbolic), labelled bounded: a well-formedness precondition on a pointer table of symbolic length needs quantifiers, which CBMC 6.11 does not decide (SAT ignores forall, SMT back ends error)',
+            'lweKeySwitchTranslate_fromArray: (a) unbounded in n (loop contracts on both loops) for inputs whose coordinates all equal one symbolic value and whose rows ks[i] all point to one well-formed row block (__CPROVER_array_set gives every index a valid row without a quantifier): indices in bounds, the row of the property digit subtracted once per non-zero digit; lifting to unequal coordinates uses that iteration i only reads a_i and ks[i] -- a syntactic fact, not machine-checked; (b) arbitrary coordinates and the table built by the real constructor: bounded stand-in (n in {1,2,3}(,5)), labelled bounded; layouts with t = 1 or t > 15 only in (b)',
             'phase conclusion phase(out) = phase(in) + sum_i s_i(a_i - abar_i) - sum noise(rows used): lemma + induction over n, the induction is not machine-checked',
             'noise statistics with a real noisy key-switching key: not decided (statistical)',
             'lweSubTo is the AVX2 assembly in optimised builds; its scalar body is proved in C14',
